@@ -166,6 +166,13 @@ func c18Body(x *explore.Ctx, pi int, secure bool, hi int) {
 		}
 	}
 	d.HandshakeTimeout = time.Hour
+	// without a TLSClientConfig the library must still do TLS wherever the path demands it; the
+	// simulated peers' certificates then do not verify (the test CA is not a system root), so such
+	// a dial fails - but never by sending anything in the clear
+	noTLSConfig := (secure || firstHopTLS) && x.Pick(2, "TLSClientConfig=nil") == 1
+	if noTLSConfig {
+		d.TLSClientConfig = nil
+	}
 	var reqHdr http.Header
 	if x.Pick(2, "caller-Host-override") == 1 {
 		// a Host header override changes the Host header only: dial target, CONNECT target and
@@ -199,6 +206,17 @@ func c18Body(x *explore.Ctx, pi int, secure bool, hi int) {
 	}
 	target := hostOnly + ":" + port
 	socksUserOnly := strings.HasPrefix(proxy, "socks5") && o.creds == "user"
+	if noTLSConfig {
+		x.Check((conn == nil) == (err != nil), key("conn-xor-err"), "conn=%v err=%v", conn != nil, err)
+		x.Check(!n.Log.Has("backend: PLAINTEXT-ON-TLS-PORT") && !n.Log.Has("proxy: PLAINTEXT-ON-TLS-PORT"), key("plaintext-to-wss"), "TLSClientConfig nil: a TLS endpoint received plaintext first: %v", log)
+		if secure && !(proxy == "" && useTLS) {
+			// the library itself is in charge of TLS towards the backend and cannot verify it
+			x.Check(conn == nil, key("unverified-backend-accepted"), "TLSClientConfig nil: dial succeeded although the backend's certificate is not signed by a system root")
+			x.Check(!n.Log.Has("backend: ws-request"), key("request-sent-unverified"), "TLSClientConfig nil: WebSocket request reached the backend although its certificate cannot be verified: %v", log)
+		}
+		x.Check(!n.Log.Has("net: BACKEND-DIALED-DIRECTLY") || proxy == "", key("proxy-bypassed"), "backend dialed directly although a proxy is configured")
+		return
+	}
 	if o.proxyResp == "100 Continue" {
 		// an interim response is not a final status: either outcome, only consistency
 		x.Check((conn == nil) == (err != nil), key("conn-xor-err"), "conn=%v err=%v", conn != nil, err)
